@@ -445,7 +445,7 @@ Definition h_any_collides (h : hstate) (p : nat) (hs : hstate) (srcs : list nat)
 
 Definition h_any_into_own_branch (ti sti : nat) (hs : hstate) (srcs : list nat) (p : nat) (deep : option bool) : bool :=
   match deep with
-  | Some true => Nat.eqb ti sti && existsb (fun s => h_live hs s && (if Nat.eqb p 0 then false else h_is_anc (h_fuel hs) hs s p)) srcs
+  | Some true => Nat.eqb ti sti && existsb (fun s => h_live hs s && h_plive hs p && (if Nat.eqb p 0 then false else h_is_anc (h_fuel hs) hs s p)) srcs
   | _ => false
   end.
 
